@@ -15,8 +15,8 @@ import (
 	"time"
 
 	"github.com/centrifugal/protocol"
-	fdelta "github.com/shadowspore/fossil-delta"
 	dto "github.com/prometheus/client_model/go"
+	fdelta "github.com/shadowspore/fossil-delta"
 )
 
 func (w *w1World) gaugeSum(name string) float64 {
@@ -369,7 +369,7 @@ type w1Instance struct {
 	endCode    uint32
 	startAt    time.Duration
 	endKind    string
-	overlap    bool // started by a push:sub that arrived while a subscription was active
+	overlap    bool  // started by a push:sub that arrived while a subscription was active
 	tf, delta  bool  // client tags filter used / delta negotiated
 	originSeq  int64 // when the request that started it was issued (command sent / push observed)
 }
